@@ -111,6 +111,7 @@ def account(mod, st, scn, hist, viols, tag):
         st['io'] += hist.total_io
         st['empty_reads'] += hist.empty_reads
         st['ops'] += len(hist.ops)
+        abstract_transitions(hist, st)
         keys = mod.classify(scn, hist)
         if keys:
             st['nontrivial'] += 1
@@ -125,6 +126,45 @@ def account(mod, st, scn, hist, viols, tag):
         ent['count'] += 1
         if ent['first'] is None:
             ent['first'] = {'tag': tag, 'scn': scn, 'detail': v.detail, 'op_id': v.op_id}
+
+
+def _fault_of(rec):
+    if rec['faults_fired']:
+        f = rec['faults_fired'][0]
+        return '%s_%s@%d' % (f[0], f[1], min(f[3], 4))
+    for q in rec['requests']:
+        if q.get('plan'):
+            return ','.join(sorted(k for k in q['plan'] if k != 'at'))
+    return '-'
+
+
+def _ret_class(v):
+    if v is None:
+        return 'None'
+    if isinstance(v, bool):
+        return str(v)
+    if isinstance(v, (int, str)):
+        return type(v).__name__
+    if isinstance(v, dict):
+        return next(iter(v))
+    return 'other'
+
+
+def abstract_transitions(hist, st):
+    """Reach measure: distinct abstract transitions (state before, call, first fault, outcome, state after).
+    Object state = (has port, port open, error latched); legacy calls have no host-side state."""
+    tr, ss = st['sets']['abstract_transitions'], st['sets']['abstract_states']
+    for rec in hist.ops:
+        op = rec['op']
+        if op['op'] == 'call' and rec.get('before') and rec.get('after'):
+            b, a = rec['before'], rec['after']
+            sb = '%d%d%d' % (b['port'] is not None, b['port_open'], b['err'] is not None)
+            sa = '%d%d%d' % (a['port'] is not None, a['port_open'], a['err'] is not None)
+            ss.add(sb)
+            ss.add(sa)
+            tr.add('%s|%s|%s|%s|%s|%s' % (sb, op['m'], _fault_of(rec), _ret_class(rec['ret']), rec['exc'] or '-', sa))
+        elif op['op'] == 'lcall':
+            tr.add('L|%s|%s|%s|%s' % (op['f'], _fault_of(rec), _ret_class(rec['ret']), rec['exc'] or '-'))
 
 
 def work(job):
@@ -467,6 +507,11 @@ def write_evidence(mod, pid, args, total, wall, reported, det_msg, n_cells, done
         'faults_fired': dict(sorted(total['fired'].items())),
         'probes': dict(sorted(total['extra'].items())),
         'reach_sets': {k: len(v) for k, v in sorted(total['sets'].items())},
+        'states': len(total['sets'].get('abstract_states', ())),
+        'transitions': len(total['sets'].get('abstract_transitions', ())),
+        'states_transitions_measure': 'abstract object state = (port set, port open, error latched); transition = '
+                                      '(state before, method or legacy function, first fault that fired or reply '
+                                      'plan consumed, class of the returned value, exception class, state after)',
         'components': {
             'real': ['plotink.ebb_serial', 'plotink.ebb_motion', 'plotink.ebb3_serial', 'plotink.ebb3_motion',
                      'packaging.version', 'pyserial exception classes and ListPortInfo', 'logging'],
